@@ -6,6 +6,7 @@ import (
 	"math/rand"
 	"runtime/debug"
 	"strings"
+	"time"
 
 	"github.com/btcsuite/btcwallet/waddrmgr"
 	"github.com/btcsuite/btcwallet/walletdb"
@@ -220,6 +221,9 @@ func (x *run) finalSweeps() {
 	}
 }
 
+// operations after which the C05 workload sometimes locks before the commit
+var lockInTx = map[string]bool{"next": true, "extend": true, "importpriv": true, "importscript": true, "importwscript": true, "importtscript": true, "importpub": true, "importxpub": true, "rename": true, "newaccount": true, "newscope": true, "markused": true}
+
 func (x *run) step(op *Op) {
 	w, cfg := x.w, x.cfg
 	if cfg.C04 && w.PrivCryptoKey == nil && w.Unlocked() && !w.WatchOnly {
@@ -285,9 +289,70 @@ func (x *run) step(op *Op) {
 			return
 		}
 		x.st["c05-conversions-of-an-unlocked-manager-wipe-checked"]++
+	case cfg.C05 && wasUnlocked && op.Run != nil && op.Mutates && lockInTx[op.Kind] && w.R.Intn(5) == 0:
+		// the manager is locked INSIDE the operation's database transaction, after the
+		// operation returned and before the commit (the wallet's lock timer is not
+		// synchronised with database transactions): whatever the operation registers at
+		// commit time must not bring clear text into the locked manager
+		var lockErr error
+		err = w.Update(func(ns walletdb.ReadWriteBucket) error {
+			e := op.Run(ns)
+			if e == nil {
+				lockErr = w.M.Lock()
+			}
+			return e
+		})
+		if err == nil && op.Post != nil {
+			op.Post()
+		}
+		op.Name += " (manager locked inside the same transaction, before the commit)"
+		if err == nil && lockErr == nil && w.M.IsLocked() {
+			x.st["c05-locks-before-the-commit-of-an-operation"]++
+			wipe = w.LiveSecrets(x.st)
+		}
 	case cfg.C05 && (op.Kind == "lock" || op.Kind == "unlock-wrong") && wasUnlocked:
 		// capture clear-text buffers, lock, demand they are wiped
 		wipe, err = w.LockAndCheckWipe(func() error { return x.exec(op) }, x.st)
+	case cfg.C04 && wasUnlocked && !w.WatchOnly && (op.Kind == "newscope" || op.Kind == "changepass") && w.R.Intn(2) == 0:
+		// Operations of the root manager run under the manager's own mutex, the one
+		// Lock takes: a Lock request arriving in the middle of one (the wallet's lock
+		// timer) must wait for it.  The request is made just before the operation's
+		// k-th write; it is given a moment to be served, then the write proceeds.
+		// Whatever the file holds afterwards is judged by the image scan as usual
+		// (nothing the operation wrote may open under a wiped, all-zero key).
+		prev := w.DB.Trace
+		k, n := 1+w.R.Intn(3), 0
+		var lockDone chan error
+		w.DB.Trace = func(ev vdb.WriteEvent) {
+			if prev != nil {
+				prev(ev)
+			}
+			n++
+			if n != k {
+				return
+			}
+			lockDone = make(chan error, 2)
+			go func(c chan error) { c <- w.M.Lock() }(lockDone)
+			select {
+			case e := <-lockDone:
+				lockDone <- e
+				x.st["c04-lock-requests-served-during-a-root-manager-operation"]++
+			case <-time.After(25 * time.Millisecond):
+			}
+		}
+		err = x.exec(op)
+		w.DB.Trace = prev
+		if lockDone != nil {
+			x.st["c04-lock-requests-during-a-root-manager-operation"]++
+			op.Name += fmt.Sprintf(" (Lock requested before its write #%d)", k)
+			select {
+			case <-lockDone:
+			case <-time.After(60 * time.Second):
+				w.Abandoned = true
+				x.fail(df("harness:lock-request-never-served", "%s: the concurrent Lock request did not return within 60 s", op.Name))
+				return
+			}
+		}
 	default:
 		err = x.exec(op)
 	}
